@@ -48,7 +48,28 @@ def mk_source(rnd, helper, r, c, scale, k, size=None):
     return s
 
 
-def run_case(seed, stage=None, extra=None):
+class _Watchdog(Exception):
+    pass
+
+
+def run_case(seed, stage=None, extra=None, limit=240):
+    """run_case_inner under an alarm: a priorized fit that does not come back is a failure, not a hang"""
+    import signal
+
+    def onalarm(signum, frame):
+        raise _Watchdog()
+    old = signal.signal(signal.SIGALRM, onalarm)
+    signal.alarm(limit)
+    try:
+        return run_case_inner(seed, stage, extra)
+    except _Watchdog:
+        return [("priorized_fit_completes", "priorized_fit_islands did not finish within %d s" % limit)], {"stage": stage, "extra": extra}
+    finally:
+        signal.alarm(0)
+        signal.signal(signal.SIGALRM, old)
+
+
+def run_case_inner(seed, stage=None, extra=None):
     """returns (failures, info)"""
     rnd = random.Random(seed)
     shape = (rnd.randint(90, 120), rnd.randint(90, 130))
@@ -230,11 +251,71 @@ def resize_case(seed):
     return []
 
 
+def itergen_case(seed):
+    """models.island_itergen (the grouping used with regroup off): every source in exactly one group, one island number
+    per group, groups in increasing island order -- whatever the row order, gaps and multiplicities of the island numbers"""
+    from AegeanTools.models import island_itergen
+    rnd = random.Random(seed)
+    n_isl = rnd.randint(1, 7)
+    start = rnd.choice([0, 0, 1, 5, -3])
+    nums, cur = [], start
+    for _ in range(n_isl):
+        nums.append(cur)
+        cur += rnd.choice([1, 1, 1, 2, 4])
+    cat = []
+    for isl in nums:
+        for k in range(rnd.choice([1, 1, 2, 3, 5])):
+            s = ComponentSource()
+            s.island, s.source = isl, k
+            s.ra, s.dec = rnd.uniform(0, 360), rnd.uniform(-80, 80)
+            cat.append(s)
+    rnd.shuffle(cat)
+    given = list(cat)
+    import signal
+
+    def _alarm(*a):
+        raise TimeoutError()
+    old = signal.signal(signal.SIGALRM, _alarm)
+    signal.alarm(20)
+    try:
+        groups = list(island_itergen(cat))
+    except TimeoutError:
+        return [("itergen.terminates", "island_itergen did not finish in 20 s on islands %s in row order %s" % (nums, [s.island for s in given]))]
+    finally:
+        signal.alarm(0)
+        signal.signal(signal.SIGALRM, old)
+    flat = [s for g in groups for s in g]
+    if sorted(id(s) for s in flat) != sorted(id(s) for s in given):
+        return [("itergen.every_source_in_exactly_one_group", "%d sources in, %d out (islands %s)" % (len(given), len(flat), nums))]
+    if any(len(set(s.island for s in g)) != 1 for g in groups) or len(groups) != len(nums):
+        return [("itergen.one_island_per_group", "islands %s grouped as %s" % (nums, [[s.island for s in g] for g in groups]))]
+    if [g[0].island for g in groups] != sorted(nums) or any([s.source for s in g] != sorted(s.source for s in g) for g in groups):
+        return [("itergen.groups_in_increasing_island_order", "islands %s come out as %s" % (nums, [[(s.island, s.source) for s in g] for g in groups]))]
+    if len(given) != len(cat) or any(a is not b for a, b in zip(given, cat)):
+        return [("itergen.callers_list_is_not_modified", "the caller's catalogue list was changed")]
+    return []
+
+
 def crosscheck(p):
     thorough = p.get("tier") == "thorough"
     s0 = p.get("seed", 0) * 6007
     failures, seen, evals = [], set(), 0
+    for i in range(2000 if thorough else 300):
+        if "itergen.terminates" in seen:
+            break
+        evals += 1
+        try:
+            fl = itergen_case(s0 + i)
+        except Exception as e:
+            fl = [("itergen.no_exception", "island_itergen raised %r" % (e,))]
+        for lab, what in fl:
+            if lab not in seen:
+                seen.add(lab)
+                failures.append({"label": lab, "input": {"itergen_seed": s0 + i}, "what": what, "replay_func": "replay_priorized",
+                                 "replay_payload": {"itergen": [s0 + i]}})
     for i in range(150 if thorough else 18):
+        if "priorized_fit_completes" in seen:
+            break
         evals += 1
         try:
             fl, info = run_case(s0 + i, stage=1 + i % 3)
@@ -248,6 +329,8 @@ def crosscheck(p):
     # every special configuration at least once per run, whatever the random draw above picked
     for j, kind in enumerate(('firstrow', 'nested', 'edge', 'mixed', 'off', 'nan', 'nopsf')):
         for stage in ((1, 2, 3) if thorough else (1 + (j + p.get("seed", 0)) % 3,)):
+            if "priorized_fit_completes" in seen:
+                break
             evals += 1
             try:
                 fl, info = run_case(s0 + 500 + j, stage=stage, extra=kind)
@@ -277,14 +360,22 @@ def crosscheck(p):
                 failures.append({"label": lab, "input": {"resize_seed": s0 + i}, "what": what, "replay_func": "replay_priorized",
                                  "replay_payload": {"resize": [s0 + i]}})
     return {"evaluations": evals, "failures": failures,
-            "rule": "cluster.resize against per-source beams of a position dependent psf; noise-free model images (AeRes.make_model) of random catalogues (sizes giving odd and even cut-out widths, "
+            "rule": "models.island_itergen partitions shuffled catalogues by island number (gaps, negative start); cluster.resize against per-source beams of a position dependent psf; noise-free model images (AeRes.make_model) of random catalogues (sizes giving odd and even cut-out widths, "
                     "sub-pixel positions, shuffled rows, off-image / NaN-pixel sources, psf columns zero), stages 1-3, regroup on/off, "
                     "ratio None/1 (psf columns NaN = absent): one row per accepted uuid, PRIORIZED, flux 0.1 %, position 0.01 pix, shape 0.1 %, copied errors"}
 
 
 def replay_priorized(p):
     bad = []
-    explicit = 'cases' in p or 'small' in p or 'resize' in p
+    explicit = 'cases' in p or 'small' in p or 'resize' in p or 'itergen' in p
+    for sd in (p.get("itergen") or ([] if explicit else range(300))):
+        try:
+            fl = itergen_case(sd)
+        except Exception as e:
+            fl = [("itergen.no_exception", repr(e))]
+        if fl:
+            bad.append({"itergen": sd, "what": fl})
+            break
     for sd in (p.get("resize") or ([] if explicit else range(60))):
         try:
             fl = resize_case(sd)
